@@ -360,11 +360,12 @@ theorem addDemand_cases (s : Reg) (n : Name) (p : Option Name) (obj : Bool) :
     · simp [hk]
 
 def delDemandR (s : Reg) (n : Name) (idx : Nat) (i : NodeInfo) : Reg :=
-  { s with nodes := AL.set s.nodes n { i with demands := i.demands.eraseIdx idx } }
+  { (removeUsageO s .pattern (droppedPat i.demands idx) (n, .junction)) with
+    nodes := AL.set s.nodes n { i with demands := i.demands.eraseIdx idx } }
 
 theorem delDemand_cases (s : Reg) (n : Name) (idx : Nat) :
-    delDemand s n idx = (s, .error) ∨
-    (∃ i, AL.get? s.nodes n = some i ∧ i.kind = .junction ∧ delDemand s n idx = (delDemandR s n idx i, .ok)) := by
+    delDemand repaired s n idx = (s, .error) ∨
+    (∃ i, AL.get? s.nodes n = some i ∧ i.kind = .junction ∧ delDemand repaired s n idx = (delDemandR s n idx i, .ok)) := by
   unfold delDemand delDemandR
   cases h : AL.get? s.nodes n with
   | none => exact Or.inl rfl
@@ -373,6 +374,22 @@ theorem delDemand_cases (s : Reg) (n : Name) (idx : Nat) :
     · by_cases hl : idx ≥ i.demands.length
       · simp [hk, hl]
       · exact Or.inr ⟨i, rfl, hk, by simp [hk, hl]⟩
+    · simp [hk]
+
+def insertDemandR (s : Reg) (n : Name) (idx : Nat) (pat : Option Name) (i : NodeInfo) : Reg :=
+  { (addUsage? s .pattern pat (n, .junction)) with
+    nodes := AL.set s.nodes n { i with demands := (i.demands.take idx) ++ [(pat, false)] ++ (i.demands.drop idx) } }
+
+theorem insertDemand_cases (s : Reg) (n : Name) (idx : Nat) (pat : Option Name) :
+    insertDemand repaired s n idx pat = (s, .error) ∨
+    (∃ i, AL.get? s.nodes n = some i ∧ i.kind = .junction ∧
+      insertDemand repaired s n idx pat = (insertDemandR s n idx pat i, .ok)) := by
+  unfold insertDemand insertDemandR
+  cases h : AL.get? s.nodes n with
+  | none => exact Or.inl rfl
+  | some i =>
+    by_cases hk : i.kind = .junction
+    · exact Or.inr ⟨i, rfl, hk, by simp [hk]⟩
     · simp [hk]
 
 def addFireR (s : Reg) (n p : Name) (i : NodeInfo) : Reg :=
@@ -460,11 +477,11 @@ theorem renameSource_cases (s : Reg) (old new : Name) :
       | none => exact Or.inr (Or.inr ⟨si, rfl, rfl, hne, by simp [hne, hn]⟩)
 
 def clearDemandsR (s : Reg) (n : Name) (i : NodeInfo) : Reg :=
-  { s with nodes := AL.set s.nodes n { i with demands := [] } }
+  { (releaseAll s .pattern (demandNames i.demands) (n, .junction)) with nodes := AL.set s.nodes n { i with demands := [] } }
 
 theorem clearDemands_cases (s : Reg) (n : Name) :
-    clearDemands s n = (s, .error) ∨
-    (∃ i, AL.get? s.nodes n = some i ∧ i.kind = .junction ∧ clearDemands s n = (clearDemandsR s n i, .ok)) := by
+    clearDemands repaired s n = (s, .error) ∨
+    (∃ i, AL.get? s.nodes n = some i ∧ i.kind = .junction ∧ clearDemands repaired s n = (clearDemandsR s n i, .ok)) := by
   unfold clearDemands clearDemandsR
   cases h : AL.get? s.nodes n with
   | none => exact Or.inl rfl
@@ -474,7 +491,8 @@ theorem clearDemands_cases (s : Reg) (n : Name) :
     · simp [hk]
 
 def assignDemandR (s : Reg) (n p : Name) (i : NodeInfo) : Reg :=
-  { (addUsage { s with patterns := s.patterns ++ [p] } .pattern p (n, .junction)) with
+  { (addUsage (releaseAll { s with patterns := s.patterns ++ [p] } .pattern (demandNames i.demands) (n, .junction))
+      .pattern p (n, .junction)) with
     nodes := AL.set s.nodes n { i with demands := [(some p, false)] } }
 
 theorem assignDemand_cases (s : Reg) (n p : Name) :
